@@ -122,6 +122,121 @@ def gen_value(rng, maxlen=24, floats=False):
 
 
 # --------------------------------------------------------------------------
+# JSON-validated properties: every value shape
+
+def json_property_names():
+    """JSON_PROPERTY_NAMES as the code has them now (all of them are generated, not a hand-picked few)"""
+    try:
+        from fim.graph.abc_property_graph_constants import ABCPropertyGraphConstants as K
+        return list(K.JSON_PROPERTY_NAMES)
+    except Exception:
+        return list(JSON_PROP_NAMES)
+
+
+def gen_json_object(rng, maxlen=24, depth=0):
+    """a JSON value of any shape: number, bool, null, string (adversarial grammar), list, dict, nested, empty"""
+    k = rng.random()
+    if depth >= 3:
+        k *= 0.55
+    if k < 0.10:
+        return rng.choice([0, 1, -1, 7, 10, 4096, 2 ** 31, 2 ** 63, -2 ** 63 - 1, 10 ** 30])
+    if k < 0.16:
+        return rng.choice([1.5, -0.25, 0.0, 1e300, 1e-7, 3.0])
+    if k < 0.24:
+        return rng.random() < 0.5
+    if k < 0.29:
+        return None
+    if k < 0.48:
+        return gen_text(rng, maxlen)
+    if k < 0.55:
+        return rng.choice([[], {}, "", [[]], [{}], {"": ""}, [None], {"a": None}])
+    if k < 0.78:
+        return [gen_json_object(rng, maxlen, depth + 1) for _ in range(rng.randrange(0, 4))]
+    out = {}
+    for _ in range(rng.randrange(0, 4)):
+        name = gen_text(rng, 8) if rng.random() < 0.3 else rng.choice(["a", "k", "core", "é", "id", "Class", "NodeID", "1", ""])
+        out[name] = gen_json_object(rng, maxlen, depth + 1)
+    return out
+
+
+JSON_INVALID = ["{bad json", "'single'", "True", "007", "1_0", "{'a': 1}", "[1, 2", "nul", "{\"a\": }", "+3", "0x10", "1 2", "<a/>"]
+
+
+def gen_json_text(rng, maxlen=24, invalid=0.12):
+    """the *text* of a JSON-validated property: what the setters write (json.dumps of any value, both ascii modes,
+    a verbatim JSON text with blanks around it), the two empty conventions, and - separately - texts json.loads rejects"""
+    k = rng.random()
+    if k < invalid:
+        return rng.choice(JSON_INVALID)
+    if k < invalid + 0.08:
+        return rng.choice(["", "None"])
+    o = gen_json_object(rng, maxlen)
+    t = json.dumps(o, ensure_ascii=rng.random() < 0.5)
+    if rng.random() < 0.12:
+        t = rng.choice([" ", "\n", "\t "]) + t + rng.choice(["", " ", "\n"])
+    if rng.random() < 0.05:
+        t = rng.choice(["NaN", "Infinity", "-Infinity"])          # json.loads takes them
+    return t
+
+
+def json_shape(v):
+    """shape class of a JSON-validated property value (evidence histogram; setter_producible)"""
+    if not isinstance(v, str):
+        return "non-str:" + type(v).__name__
+    if v == "":
+        return "empty-text"
+    if v == "None":
+        return "None-text"
+    try:
+        o = json.loads(v)
+    except ValueError:
+        return "invalid"
+    name = {dict: "object", list: "array", str: "string", bool: "bool", int: "int", float: "float", type(None): "null"}[type(o)]
+    if isinstance(o, (dict, list, str)) and len(o) == 0:
+        name = "empty-" + name
+    elif isinstance(o, (dict, list)) and any(isinstance(x, (dict, list)) for x in (o.values() if isinstance(o, dict) else o)):
+        name = "nested-" + name
+    if not v.isascii() or (isinstance(o, str) and not o.isascii()):
+        name += "+nonascii"
+    return name
+
+
+def graph_nodes_data(im, gid):
+    """attribute dicts of the nodes stamped with gid (read off the store, not through the library)"""
+    g = im.nx(gid) if (not im.disjoint or gid in im.st.graphs) else None
+    if g is None:
+        return []
+    return [d for _, d in g.nodes(data=True) if d.get("GraphID") == gid]
+
+
+def json_shapes(im, gid):
+    names = json_property_names()
+    return ["%s:%s" % (k, json_shape(d[k])) for d in graph_nodes_data(im, gid) for k in names if k in d]
+
+
+def setter_producible(im, gid):
+    """independent statement of 'what the setters can produce': every node and link of the store has a Class, NodeIDs of
+    the graph are unique, and every JSON-validated property of the graph's nodes is a text json.loads accepts - any JSON
+    value, scalars included: X.to_json() / json.dumps(data) - or one of the two empty conventions. validate_graph()
+    must accept such a graph (before and after a round trip)"""
+    ds = graph_nodes_data(im, gid)
+    if not ds:
+        return False
+    nids = [d.get("NodeID") for d in ds]
+    if len(set(map(repr, nids))) != len(nids) or any(n is None for n in nids):
+        return False
+    g = im.st.graphs[gid] if im.disjoint else im.st.graphs      # validate_graph looks at the whole nx.Graph it is given
+    if any(d.get("Class") is None for _, d in g.nodes(data=True)) or any(d.get("Class") is None for _, _, d in g.edges(data=True)):
+        return False
+    names = json_property_names()
+    for d in ds:
+        for k in names:
+            if k in d and (not isinstance(d[k], str) or json_shape(d[k]) == "invalid"):
+                return False
+    return True
+
+
+# --------------------------------------------------------------------------
 # wire forms
 
 def val(v):
@@ -363,9 +478,16 @@ ENTRIES = ("string", "file", "string_direct", "file_direct")
 def snapshot(st, gid):
     """canonical content of one graph: nodes keyed by NodeID (typed values, GraphID dropped),
     edges as unordered NodeID pairs with their typed properties"""
-    if hasattr(st, "graph_node_ids") and gid not in st.graphs:
-        return None                      # disjoint flavour: do not let the defaultdict create an entry
-    g = st.extract_graph(gid)
+    if hasattr(st, "graph_node_ids"):
+        if gid not in st.graphs:
+            return None                  # disjoint flavour: do not let the defaultdict create an entry
+        g = st.graphs[gid]               # the graph object itself (read only)
+    else:
+        # shared flavour, read off the store independently of extract_graph: the nodes stamped with this GraphID and
+        # the edges among them (edges leading into other graphs of the store - merge_nodes leaves such - are not content
+        # of this graph)
+        own = [n for n, d in st.graphs.nodes(data=True) if d.get("GraphID") == gid]
+        g = st.graphs.subgraph(own)
     if g is None or len(g) == 0:
         return None
 
@@ -476,9 +598,9 @@ def gen_raw_spec(rng, maxn=8, maxe=12, maxp=6, maxlen=24, floats=False, nid_adve
         nids.append(nid)
         props = {}
         for _ in range(rng.randrange(0, maxp + 1)):
-            if rng.random() < 0.12:
-                name = rng.choice(JSON_PROP_NAMES)
-                v = rng.choice(['{"core": 4}', '{"bdf": "0000:25:00.0"}', "", "None", '{"a": "<&>"}', '[1, 2]', '{"core": 4}', "{bad json", 7])
+            if rng.random() < 0.2:
+                name = rng.choice(json_property_names())
+                v = gen_json_text(rng, maxlen) if rng.random() < 0.93 else rng.choice([7, True, 0])
             else:
                 name = rng.choice(PROP_NAMES)
                 v = gen_value(rng, maxlen, floats)
@@ -569,7 +691,184 @@ def spec_values(spec):
         yield nid
 
 
-def gen_topology(rng, kind=None, maxlen=24, importer=None):
+def _json_data_value(rng, maxlen):
+    """what `element.user_data = …` takes: any JSON-encodable Python value (a str is taken as JSON *text*)"""
+    o = gen_json_object(rng, maxlen)
+    if isinstance(o, str) or rng.random() < 0.25:
+        t = json.dumps(o, ensure_ascii=rng.random() < 0.5)
+        return (" " + t + "\n") if rng.random() < 0.1 else t
+    return o
+
+
+def decorate_topology(rng, t, maxlen=24, share=0.5):
+    """set JSON-validated properties through the public API (attribute setters / set_property) on nodes, components,
+    interfaces, services and links, with every value shape the setter accepts; a setter that refuses a value is
+    simply skipped (the histogram `jsonprop:*` in the evidence shows what got through)"""
+    import fim.user as f
+    from fim.slivers.capacities_labels import Capacities, CapacityHints, Labels, ReservationInfo, StructuralInfo, Flags
+    from fim.slivers.tags import Tags
+    from fim.slivers.gateway import Gateway
+
+    def labels():
+        kw = {}
+        for name, mk in rng.sample([
+                ("vlan", lambda: str(rng.randrange(1, 4000))), ("vlan_range", lambda: ["100-200", "300-%d" % rng.randrange(301, 4000)]),
+                ("local_name", lambda: gen_text(rng, maxlen) or "p"), ("device_name", lambda: gen_text(rng, maxlen) or "d"),
+                ("bdf", lambda: ["0000:41:00.%d" % i for i in range(rng.randrange(1, 3))]), ("mac", lambda: "04:3F:72:B7:15:6C"),
+                ("ipv4", lambda: ["192.168.1.%d" % rng.randrange(1, 200)]), ("ipv4_subnet", lambda: "192.168.1.0/24"),
+                ("ipv6", lambda: "2001:db8::1"), ("asn", lambda: "65000"), ("instance", lambda: gen_text(rng, maxlen) or "i"),
+                ("region", lambda: "é-west"), ("account_id", lambda: "007"), ("numa", lambda: "1")], rng.randrange(0, 4)):
+            kw[name] = mk()
+        return Labels(**kw)
+
+    def caps():
+        return Capacities(**{k: rng.choice([0, 1, 2, 100, 2 ** 31]) for k in rng.sample(["core", "ram", "disk", "bw", "unit", "cpu", "mtu", "burst_size"], rng.randrange(0, 4))})
+    makers = {
+        "labels": labels, "label_allocations": labels, "capacities": caps, "capacity_allocations": caps,
+        "capacity_hints": lambda: CapacityHints(instance_type=rng.choice(["fabric.c1.m4.d10", "fabric.c8.m32.d100"])),
+        "reservation_info": lambda: ReservationInfo(reservation_id=gen_text(rng, maxlen) or "r", reservation_state=rng.choice(["Active", "Ticketed", "<&>"]),
+                                                    **({"error_message": gen_text(rng, maxlen)} if rng.random() < 0.5 else {})),
+        "structural_info": lambda: StructuralInfo(adm_graph_ids=[gen_text(rng, 12) or "g" for _ in range(rng.randrange(0, 3))]),
+        "tags": lambda: Tags(*[rng.choice(["blue", "exp-7", "é", "0", "true", "None"]) for _ in range(rng.randrange(0, 3))]),
+        "flags": lambda: Flags(**{k: rng.random() < 0.5 for k in rng.sample(["auto_config", "auto_mount", "ipv4_management", "ptp"], rng.randrange(0, 3))}),
+        "peer_labels": labels,
+        "gateway": lambda: Gateway(Labels(ipv4="192.168.1.1", ipv4_subnet="192.168.1.0/24")),
+    }
+    def ero(cls):
+        from fim.slivers import path_info as pi
+        pth = pi.Path()
+        hops = ["10.1.1.%d" % rng.randrange(1, 200) for _ in range(rng.randrange(1, 4))]
+        if rng.random() < 0.5:
+            pth.set_symmetric(hops)
+        else:
+            pth.set(a2z=hops, z2a=list(reversed(hops))[:rng.randrange(0, len(hops) + 1)])
+        e = cls()
+        e.set(payload=pth)
+        return e
+
+    def maint():
+        from fim.slivers.maintenance_mode import MaintenanceInfo, MaintenanceEntry, MaintenanceState
+        m = MaintenanceInfo()
+        for k in range(rng.randrange(1, 3)):
+            m.add(rng.choice(["ALL", "w%d" % k, "é"]), MaintenanceEntry(state=rng.choice(list(MaintenanceState)),
+                                                                           **({"deadline": None} if rng.random() < 0.5 else {})))
+        m.finalize()
+        return m
+    from fim.slivers import path_info as _pi
+    makers["ero"] = lambda: ero(_pi.ERO)
+    makers["path_info"] = lambda: ero(_pi.PathInfo)
+    makers["maintenance_info"] = maint
+    elements = []
+    try:
+        for n in list(t.nodes.values()) + list(getattr(t, "facilities", {}).values()):
+            elements.append(("node", n))
+            for c in n.components.values():
+                elements.append(("comp", c))
+            for i in n.interface_list:
+                elements.append(("iface", i))
+        for ns in t.network_services.values():
+            elements.append(("ns", ns))
+        for ln in t.links.values():
+            elements.append(("link", ln))
+    except Exception:
+        pass
+    for kind, e in elements:
+        if rng.random() >= share:
+            continue
+        for _ in range(rng.choice([1, 1, 2, 3])):
+            pn = rng.choice(["user_data", "user_data", "mf_data", "layout_data"] + list(makers))
+            try:
+                if pn in ("user_data", "mf_data", "layout_data"):
+                    setattr(e, pn, _json_data_value(rng, maxlen))
+                else:
+                    v = makers[pn]()
+                    if rng.random() < 0.5 and pn in ("labels", "capacities", "tags", "flags"):
+                        setattr(e, pn, v)
+                    else:
+                        e.set_property(pn, v)
+            except Exception:
+                pass
+
+
+# --------------------------------------------------------------------------
+# graphs of one (shared) store that share NodeIDs, and merge_nodes between them
+
+def plan_merges(rng, graphs):
+    """for a list of scenario graphs: make some of them share a NodeID and return the merge_nodes calls
+    [[index of the caller, index of the other graph, node id | {"idx": k}, merge_properties | None]].
+    Raw specs get the shared node injected (with links to nodes of their own); an API-built topology gets a second
+    copy of itself (appended to `graphs` as {"kind": "copy", "of": k}: the saved text imported under another id - the
+    way delegation models of one substrate share their NodeIDs)"""
+    merges = []
+    n0 = len(graphs)
+    for _ in range(rng.choice([1, 1, 2, 3])):
+        a = rng.randrange(n0)
+        ga = graphs[a]
+        if ga["kind"] == "raw":
+            others = [k for k in range(n0) if k != a and graphs[k]["kind"] == "raw"]
+            if not others:
+                continue
+            b = rng.choice(others)
+            if rng.random() < 0.5:
+                a, b = b, a
+            sa, sb = graphs[a]["spec"], graphs[b]["spec"]
+            nid, _, pa = rng.choice(sa["nodes"])
+            if not any(x[0] == nid for x in sb["nodes"]):
+                own = [x[0] for x in sb["nodes"]]
+                sb["nodes"].append([nid, rng.choice(NODE_CLASSES), {"Name": gen_value(rng, 12), "Type": "shared"}])
+                for x in rng.sample(own, min(len(own), rng.choice([0, 1, 1, 2]))):
+                    sb["edges"].append([nid, rng.choice(RELS), x, {}] if rng.random() < 0.5 else [x, rng.choice(RELS), nid, {"w": 1}])
+            pb = next(x[2] for x in sb["nodes"] if x[0] == nid)
+            common = [k for k in pa if k in pb]
+            pol = None
+            if rng.random() < 0.5:
+                pol = {k: rng.choice(["discard", "overwrite"]) for k in common if rng.random() < 0.7}
+                if rng.random() < 0.3:
+                    pol["Class"] = rng.choice(["discard", "overwrite"])
+            merges.append([a, b, nid, pol])
+        elif ga["kind"] == "topo":
+            graphs.append({"kind": "copy", "of": a, "gid": "copy-of-%d-%d" % (a, len(graphs)), "fmt": rng.choice(["graphml", "json"])})
+            b = len(graphs) - 1
+            for _ in range(rng.choice([1, 2, 3])):
+                x, y = (a, b) if rng.random() < 0.5 else (b, a)
+                merges.append([x, y, {"idx": rng.randrange(1000)}, None])
+    return merges
+
+
+def apply_merges(im, gids, merges):
+    """-> list of outcomes ("ok" | exception class name) of the merge_nodes calls"""
+    out = []
+    for a, b, nid, pol in merges:
+        try:
+            if isinstance(nid, dict):
+                common = sorted(set(map(str, node_ids(im, gids[a]))) & set(map(str, node_ids(im, gids[b]))))
+                if not common:
+                    out.append("no-common-node")
+                    continue
+                nid = common[nid["idx"] % len(common)]
+            im.graph(gids[a]).merge_nodes(node_id=nid, other_graph=im.graph(gids[b]), merge_properties=pol)
+            out.append("ok")
+        except Exception as e:
+            out.append(type(e).__name__)
+    return out
+
+
+def cross_edges(im):
+    """number of edges of the shared store that join nodes of different graphs"""
+    if im.disjoint:
+        return 0
+    g = im.st.graphs
+    return sum(1 for u, v in g.edges() if g.nodes[u].get("GraphID") != g.nodes[v].get("GraphID"))
+
+
+def gen_topology(rng, kind=None, maxlen=24, importer=None, decorate=True):
+    t = _gen_topology(rng, kind, maxlen, importer)
+    if decorate:
+        decorate_topology(rng, t, maxlen)
+    return t
+
+
+def _gen_topology(rng, kind=None, maxlen=24, importer=None):
     """an ExperimentTopology / SubstrateTopology built through the public API; returns the topology"""
     import fim.user as f
     from fim.slivers.capacities_labels import Capacities, Labels
